@@ -65,7 +65,7 @@ type Pool struct {
 	registered bool
 }
 
-const maxPooled = 512
+const maxPooled = 128
 
 var (
 	poolBuf  [64]*Pool
@@ -130,7 +130,14 @@ func ptrOf(v any) uintptr {
 //
 //go:norace
 func (p *Pool) foreignStep() {
-	for _, it := range p.items {
+	// Only the most recently pooled items are looked at: the step runs at every
+	// pool operation and must not cost time proportional to the pool size (a
+	// parser that loops under a budget pools hundreds of maps).
+	lo := len(p.items) - 6
+	if lo < 0 {
+		lo = 0
+	}
+	for _, it := range p.items[lo:] {
 		if it.foreign {
 			// the foreign user finishes: clears the map and puts it back
 			if simrt.Choose(2) == 1 {
